@@ -5,9 +5,13 @@
       compute_log_likelihood_hazard (distributions.py:1269)   where(t > 0, (rho/lam) (t/lam)**(rho-1), -INFINITY);
                                                               where(hazard > 0, log hazard, hazard); where(event_bool != 0, ., 0)
       _nll                          (distributions.py:1499)   -1 * (log_survival + log_hazard)
-    [DensityTie.v] proves that every GENERATED definition is an instance of these.  Definitions only. *)
+    [DensityTie.v] proves that every GENERATED definition is an instance of these.  Definitions only.
+
+    Bernoulli: shape of [StatelessDistributionFamilyFromTorchDistribution._nll] (distributions.py:317) followed INTO
+    [torch.distributions.Bernoulli.__init__/logits/log_prob] (python code of torch, traced):
+      -( -bce_with_logits( ln pc - log1p(-pc), y ) ),  pc = clamp(p, min=eps, max=1-eps)  *)
 From Coq Require Import Reals.
-From Leaspy Require Import Base.RAux.
+From Leaspy Require Import Base.RAux Formulas.TorchDist.
 Local Open Scope R_scope.
 
 Definition code_log_survival (lam rho t : R) : R := - tpow (Rmax t 0 / lam) rho.
@@ -21,3 +25,9 @@ Definition code_log_hazard (INF lam rho t delta : R) : R :=
 
 Definition code_nll (INF lam rho t delta : R) : R :=
   (code_log_survival lam rho t + code_log_hazard INF lam rho t delta) * (-1).
+
+(** [lo] = eps, [hi] = 1 - eps of the dtype (2^-23 for float32, 2^-52 for float64), both read from the trace *)
+Definition clamp_prob (lo hi p : R) : R := Rmin (Rmax p lo) hi.
+
+Definition code_bernoulli_nll (lo hi y p : R) : R :=
+  - - torch_bce_with_logits (ln (clamp_prob lo hi p) - ln (1 + - clamp_prob lo hi p)) y.
